@@ -321,6 +321,18 @@ theorem entries_head (l : List Entry) (rest : Text) :
     | none => exact ⟨'[', _, by simp [entryText, anonText]; rfl, by decide⟩
     | some nm => exact ⟨'[', _, by simp [entryText, dimText]; rfl, by decide⟩
 
+/-- the printer names all dimensions of a declaration or none: `fitDims` keeps what it is given -/
+theorem entries_fit (b : BaseV) (sq : Nat) :
+    fitDims ((entries b sq).map (·.2)) ((entries b sq).filterMap (·.1)) = (entries b sq).filterMap (·.1) := by
+  unfold entries fitDims
+  generalize effShape b sq = sh
+  by_cases h1 : b.dims ≠ []
+  · rw [if_pos h1]; simp [List.filterMap_map, Function.comp_def]
+  · rw [if_neg h1]
+    by_cases h2 : sh.length = 1
+    · rw [if_pos h2]; simp [List.filterMap_map, Function.comp_def]
+    · rw [if_neg h2]; simp [List.filterMap_map, Function.comp_def]
+
 theorem base_print (b : BaseV) (level sq : Nat) (s rest : Text) (hp : printBase b level sq = .ok s)
     (hb : BaseOk b) : base (lstrip (s ++ rest)) = .ok (normBase b sq, lstrip rest) := by
   unfold printBase at hp
@@ -354,6 +366,8 @@ theorem base_print (b : BaseV) (level sq : Nat) (s rest : Text) (hp : printBase 
     have s4 : consumeLit [';'] (';' :: '\n' :: rest) = .ok (lstrip rest) := by
       rw [consumeLit_one _ _ _ rfl, lstrip_cons_space _ (by decide)]
     have hnt : normTy b.dt = dt := by simp [normTy, hl, tf.parser]
-    simp only [base, s1, tf.parser, s2, s3, s4, quoteName_ok hb.1, normBase_entries, hE, hnt]
+    have hfit := entries_fit b sq
+    rw [hE] at hfit
+    simp only [base, s1, tf.parser, s2, s3, s4, quoteName_ok hb.1, normBase_entries, hE, hnt, hfit]
 
 end Pydap.Dds
